@@ -772,14 +772,11 @@ def function(
                             )
                         )
                     ),
-                    *(
-                        internal_body[:-1]
-                        if internal_body
-                        and isinstance(internal_body[-1], Return)
-                        and return_val
-                        else internal_body
-                    ),
-                    return_val,
+                    *internal_body,
+                    # a carried body keeps its own final `return`; it is what the default was read from
+                    None
+                    if internal_body and isinstance(internal_body[-1], Return)
+                    else return_val,
                 ),
             )
         ),
